@@ -37,13 +37,13 @@ ASSUMPTIONS = [
     "scalar-valued operators on Awkward *records* are compared with their methods when they return; see known_findings.json for the recorded Awkward-side failure",
 ]
 CAP_S = {"quick": 900, "thorough": 3600}
-TOLS = [(0.0, 0.0), (1e-9, 0.0), (1e-5, 1e-8), (0.0, 1e-6), (1e-3, 0.0), (0.5, 0.5)]
+TOLS = [(0.0, 0.0), (1e-9, 0.0), (1e-5, 1e-8), (0.0, 1e-6), (1e-3, 0.0), (0.75, 0.0), (0.5, 0.5)]
 EXACT = {2: (0.625, 0.0), 3: (0.625, 0.0, 0.0), 4: (0.625, 0.0, 0.0, 1.625)}
 
 
 def bounds(tier):
     return {"tier": tier, "system_pairs": "all 4 / 36 / 144", "tolerance_pairs": TOLS, "backends": ["OBJ", "NP", "AKA", "AKR"], "mixed_pairings_ordered": [list(m) for m in MIXED],
-            "pair_classes": ["identical", "one component (each in turn)", "two components", "all components", "nearly equal 1e-12/1e-7/1e-3", "exact across systems", "rounded across systems", "different across systems"]}
+            "pair_classes": ["identical", "one component (each in turn)", "one component doubled (each in turn; decides which operand scales rtol)", "two components", "all components", "nearly equal 1e-12/1e-7/1e-3", "exact across systems", "rounded across systems", "different across systems"]}
 
 
 def shards(tier):
@@ -63,7 +63,7 @@ def shards(tier):
 
 def _bases(dim, tier):
     vs = [v for v in A.vectors(dim, tier) if not v.has("near_axis") and not v.has("negtime")]
-    return vs[:3] if tier != "thorough" else vs[:8]
+    return A.representatives(vs, 3, tags=("spacelike", "wildphi", "down")) if tier != "thorough" else vs[:8] + [v for v in vs[8:] if v.has("spacelike") or v.has("wildphi")][:2]
 
 
 def pairs_for(dim, sa, sb, tier):
@@ -88,6 +88,13 @@ def pairs_for(dim, sa, sb, tier):
                     t[j] -= 0.25
                     out.append((f"two[{i}{j}]", s0, tuple(t)))
             out.append(("all", s0, tuple(x + 0.5 for x in s0)))
+            # b_i = 2 a_i: |a_i - b_i| lies between rtol |a_i| and rtol |b_i| for rtol = 0.75, so the answer depends on *which*
+            # operand the relative tolerance is scaled by (the second one, as in numpy.isclose), in either operand order
+            for i in range(n):
+                if s0[i] != 0:
+                    t = list(s0)
+                    t[i] = 2 * s0[i]
+                    out.append((f"double[{i}]", s0, tuple(t)))
             for eps in (1e-12, 1e-7, 1e-3):
                 for i in range(n):
                     t = list(s0)
@@ -223,6 +230,16 @@ def check_pairs(res: Result, dim, sa, sb, plist, backend, flavor="generic"):
     for rtol, atol in TOLS:
         ic = run(lambda x, y: x.isclose(y, rtol=rtol, atol=atol), va, vb)
         ic_aa = run(lambda x, y: x.isclose(y, rtol=rtol, atol=atol), va, va)
+        ic_ba = run(lambda x, y: x.isclose(y, rtol=rtol, atol=atol), vb, va) if sa == sb else None
+        if isinstance(ic_ba, list):
+            for i in range(n):
+                if ic_ba[i] != _iscl(plist[i][2], plist[i][1], rtol, atol):
+                    viol("isclose_stored_reversed", i, f"b.isclose(a, rtol={rtol}, atol={atol}) = {ic_ba[i]} but per-coordinate |b-a| <= atol + rtol|a| gives {not ic_ba[i]}", {"rtol": rtol, "atol": atol})
+                else:
+                    res.traces += 1
+                    res.nontrivial += 1
+        elif isinstance(ic_ba, tuple):
+            viol("raises", 0, f"isclose raised {ic_ba[1]}", {"form": "isclose(b,a)", "rtol": rtol, "atol": atol})
         if isinstance(ic, tuple) or isinstance(ic_aa, tuple):
             viol("raises", 0, f"isclose raised {(ic if isinstance(ic, tuple) else ic_aa)[1]}", {"form": "isclose", "rtol": rtol, "atol": atol})
             continue
